@@ -15,7 +15,7 @@ TEXTS = {
         technique="property-based testing (rapid): metamorphic twin + exact model over generated partitions and merge trees",
     ),
     'C03': dict(
-        text="Generated-input search with a validity oracle per value: for mappings of all three kinds built from alpha in [1e-6,0.99] or rebuilt from (gamma, arbitrary offset up to +-2^30), ~70 values per mapping concentrated where rounding matters (bin edges +-4 ulps incl. the 10 lowest/highest indexes, binade edges, both range ends, log-uniform fill) are checked for alpha-accuracy of Value(Index(v)), int32 range, containment between consecutive lower bounds and monotonicity over adjacent-float / few-ulp / adjacent-bin / far pairs; the reported accuracy must equal the configured one. Found and drove the repair of finding F7.",
+        text="Generated-input search with a validity oracle per value: for mappings of all three kinds built from alpha in [1e-9,0.99] or rebuilt from (gamma, arbitrary offset up to +-2^30), ~70 values per mapping concentrated where rounding matters (bin edges +-4 ulps incl. the 10 lowest/highest indexes, binade edges, both range ends, log-uniform fill) are checked for alpha-accuracy of Value(Index(v)), int32 range, containment between consecutive lower bounds and monotonicity over adjacent-float / few-ulp / adjacent-bin / far pairs; the reported accuracy must equal the configured one. Found and drove the repair of finding F7.",
         design_ref="DESIGN.md §2 C03, §1.1",
         note="Trusted: math.Log/Exp of the Go runtime within the derived slack. Sampling concentrated on the measure-zero set of edges; a violation at one specific interior value of one specific mapping would be found only by luck.",
         technique="property-based testing (rapid) with analytic validity predicates (accuracy, containment, monotonicity) on edge-focused generated floats",
